@@ -45,7 +45,7 @@ RISKY_KEYS = {
     'alias-int-str': [1, '1'],
     'alias-dash': ['a-b', 'a_b'],
     'slash': ['a/b'],
-    'longname': ['L' * 300],
+    'longname': ['L' * 300, 'L' * 299 + 'M'],
     'empty': [''],
     'dot': ['.h', '..'],
     'none': [None],
